@@ -339,6 +339,10 @@ func (pi *pkgInstr) touchStmt(fe *fileEdits, s ast.Stmt) {
 				// the literal's own statements are handled as a list
 				lists = append(lists, x.Body.List)
 				return false
+			case *ast.CallExpr:
+				if pi.isAtomicCall(x) {
+					return false // atomics are ordered: no Touch, no race
+				}
 			case *ast.Ident:
 				v := pi.varOf(x)
 				if v == nil || !pi.mutable[v] {
@@ -407,4 +411,19 @@ func writesInShallow(n ast.Node, fn func(id *ast.Ident)) {
 		}
 		return true
 	})
+}
+
+func (pi *pkgInstr) isAtomicCall(c *ast.CallExpr) bool {
+	se, ok := c.Fun.(*ast.SelectorExpr)
+	if !ok {
+		return false
+	}
+	id, ok := se.X.(*ast.Ident)
+	if !ok {
+		return false
+	}
+	if pn, ok := pi.info.Uses[id].(*types.PkgName); ok {
+		return pn.Imported().Path() == "sync/atomic"
+	}
+	return false
 }
